@@ -16,5 +16,5 @@ func ruleC08(prog *Program, rep *Report) {
 	ruleEntryParity(prog, rep)
 	ruleSharedExpr(prog, rep)
 	ruleBorrowedWrites(prog, rep) // what a pooled parser or writer is left with is what the next, possibly concurrent, caller starts from
-	ruleCacheRead(prog, rep) // a plan looked up in the wrong cache makes a result depend on what other goroutines encoded first
+	ruleCacheRead(prog, rep)      // a plan looked up in the wrong cache makes a result depend on what other goroutines encoded first
 }
